@@ -2,7 +2,7 @@
 # wave4_try.sh < list : keep confirmed fourth-wave mutants as seeded/<Cxx>-m<n> (next free number) and run the listed checks
 while read -r a k where id checks needs; do
   [ -z "$a" ] && continue
-  wt=/tmp/wx-$a
+  wt=${WTPREFIX:-/tmp/wx-}$a
   grep -q "CONFIRM: OK" /tmp/confirm4-$a-m$k.txt || { echo "=== $a-m$k not confirmed"; continue; }
   n=1; while [ -e /verif/seeded/$id-m$n ]; do n=$((n+1)); done
   d=/verif/seeded/$id-m$n; mkdir -p $d
